@@ -424,6 +424,8 @@ class CodeGen:
         self.sites = {}       # site id -> static info
         self.regions = []     # stack of model variable names
         self.region_ids = []  # stack of (rid, branch) of the enclosing regions
+        self.var_site = {}    # (variable name, region stack) -> site of the statement that defines it
+        self.origin_r = {}    # (variable name, region stack) -> description of that statement
         self.api_lines = {}   # source line number -> block nesting depth of a block-API call
         self.block_depth = 0
         self.fn = 0
@@ -445,6 +447,10 @@ class CodeGen:
 
     def step(self, info):
         k = self.new_site(info)
+        if info.get("var"):
+            key = (info["var"], tuple(self.region_ids))
+            self.var_site[key] = k
+            self.origin_r[key] = self.origin.get(info["var"], {})
         self.emit("__step__(%d, locals(), %s)" % (k, self.model_expr()))
 
     def model_expr(self):
